@@ -1574,6 +1574,16 @@ def metacall():
                 # System Predicate string
                 return Predicate.System(arg)
 
+        if cls is Predicate and isinstance(Predicate.System, type):
+            # System Predicate spec, e.g. when rebuilding a sentence from its
+            # spec or ident. They are singletons and cannot be constructed.
+            coords = spec[0] if len(spec) == 1 else spec
+            try:
+                if len(coords) == 3 and coords[0] < 0:
+                    return Predicate.System[tuple(coords)]
+            except (TypeError, KeyError):
+                pass
+
         # Invoked class name.
         clsname = cls.__name__
         
